@@ -73,6 +73,18 @@ def corr_case(g, pf, cfg, ops, obs):
     return 'corr %s %s %s %s %s' % ('true' if g else 'false', 'true' if pf else 'false', coq_cfg(cfg), coq_ops(ops), coq_obs(obs))
 
 
+def obs_hash(o):
+    acc = 0
+    for x in o:
+        acc = (acc * 1000003 + x + 7) % 2305843009213693951
+    return acc
+
+
+def corrh_case(g, pf, cfg, ops, obs):
+    return 'corrh %s %s %s %s %s' % ('true' if g else 'false', 'true' if pf else 'false', coq_cfg(cfg), coq_ops(ops),
+                                     zlist([obs_hash(o) for o in obs]))
+
+
 # ---------------------------------------------------------------------------------------------- oracles on the implementation
 class Oracle(object):
     """The statements of C14 and C15 evaluated on the real future after every step.  Reports each failure once per
